@@ -5,6 +5,7 @@ import (
 	"go/constant"
 	"go/token"
 	"go/types"
+	"sort"
 	"strings"
 
 	"golang.org/x/tools/go/ssa"
@@ -422,6 +423,10 @@ func expr(v ssa.Value, d int) string {
 				continue
 			}
 			as = append(as, expr(e, d+2))
+		}
+		if keyMode {
+			// the order of a φ's inputs follows the order of the branches in the source: not part of a key
+			sort.Strings(as)
 		}
 		return "φ(" + strings.Join(as, ", ") + ")"
 	case *ssa.Alloc:
